@@ -141,9 +141,8 @@ def expected(rec, fmt, name=None):
         # with a name, stored in the outline
         for el in outline or []:
             exp_outline.append(_copy_el(el, keep_ids=False))
-        if anchors and outline is not None:
-            exp["anchors"] = [{"x": a["x"], "y": a["y"], "name": a["name"]} for a in anchors]
-        elif anchors:
+        if anchors:
+            # (also when no drawing function is given: the anchors are glyph data all the same)
             exp["anchors"] = [{"x": a["x"], "y": a["y"], "name": a["name"]} for a in anchors]
     exp["outline"] = exp_outline
     return exp
